@@ -12,6 +12,7 @@ from ..values import (Const, Sym, CRef, FRef, Bound, BoundB, Obj, Tup, App,
 from ..interp import Interp, Hooks
 from ..formulas import signatures, LANGS, FormulaHooks
 from ..templates import extract, generic_instances, show, make_hole
+from ..fields import bool_value_field
 from ..report import Finding, RuleResult, floor, Attempts
 from . import c09
 
@@ -53,13 +54,13 @@ def classify_eq(prog, ci):
             kinds.add('else-false')
         elif pos and isinstance(pos[0], ExtClass) and pos[0].name == 'bool' \
                 and v == App('cmp', Const('=='),
-                             App('attr', me, Const('_value')), other):
+                             App('attr', me, Const(bool_value_field(prog))), other):
             kinds.add('vs-bool')
         elif pos and isinstance(pos[0], ClassInfo) and \
                 pos[0].is_subclass_of(boolc) and \
                 v == App('cmp', Const('=='),
-                         App('attr', me, Const('_value')),
-                         App('attr', other, Const('_value'))):
+                         App('attr', me, Const(bool_value_field(prog))),
+                         App('attr', other, Const(bool_value_field(prog)))):
             kinds.add('vs-Bool')
         else:
             kinds.add('other:%r under %r' % (v, p.pc))
@@ -104,12 +105,12 @@ def _bool_eq_by_cases(prog, res, me, other, boolc):
             return Const(not x.v) if isinstance(x, Const) else App('not', x)
         return v
     want = {
-        'Bool': [App('cmp', Const('=='), App('attr', me, Const('_value')),
-                     App('attr', other, Const('_value')))],
-        'bool': [App('cmp', Const('=='), App('attr', me, Const('_value')),
+        'Bool': [App('cmp', Const('=='), App('attr', me, Const(bool_value_field(prog))),
+                     App('attr', other, Const(bool_value_field(prog))))],
+        'bool': [App('cmp', Const('=='), App('attr', me, Const(bool_value_field(prog))),
                      other),
                  App('cmp', Const('=='), other,
-                     App('attr', me, Const('_value')))],
+                     App('attr', me, Const(bool_value_field(prog))))],
         'neither': [Const(False)]}
     for case in ('Bool', 'bool', 'neither'):
         vals = set()
@@ -160,7 +161,7 @@ def classify_hash(prog, ci):
         if v in (App('hash', App('str', me)),
                  App('mcall', App('str', me), Const('__hash__'), Tup(()))):
             return ('str-key',), f
-        val = App('attr', me, Const('_value'))
+        val = App('attr', me, Const(bool_value_field(prog)))
         if v in (App('hash', val),
                  App('mcall', val, Const('__hash__'), Tup(()))):
             return ('value-key',), f
